@@ -306,29 +306,36 @@ theorem boundary_le_size (cfg : LexCfg) (E : Env) (hok : RulesOK cfg.rules = tru
       exact (firstMatch_progress E cfg.rules hok p ih act e hfm).2.1
 
 /-- **the token emitted at a scan position.**  If `p` is a scan position of `lex defaultCfg s` and the scan step there yields
-`(tok ty, e)`, then the token list contains the token of type `ty` and value `s[p..e)` right after tokens spelling `s[0..p)`,
-and `e` is again a scan position. -/
-theorem lex_emits (s : Array Cp) (p : Nat) (ty : TType) (e : Nat)
+`(act, e)`, then the token list contains the token with value `s[p..e)` — of type `ty` for a rule action `ty`, of type
+`is_keyword(value)` for `PROCESS_AS_KEYWORD` — right after tokens spelling `s[0..p)`, and `e` is again a scan position. -/
+theorem lex_emits_act (s : Array Cp) (p : Nat) (act : Action) (e : Nat)
     (hb : Boundary defaultCfg (defaultCfg.env s) p)
-    (hfm : firstMatch (defaultCfg.env s) defaultCfg.rules p = some (.tok ty, e)) :
-    ∃ ts before after, lex defaultCfg s = .ok ts ∧ ts = before ++ ⟨ty, (s.extract p e).toList⟩ :: after ∧
+    (hfm : firstMatch (defaultCfg.env s) defaultCfg.rules p = some (act, e)) :
+    ∃ ts before after, lex defaultCfg s = .ok ts ∧
+      ts = before ++ ⟨tokType defaultCfg act (s.extract p e).toList, (s.extract p e).toList⟩ :: after ∧
       textLen before = p ∧ Boundary defaultCfg (defaultCfg.env s) e := by
   obtain ⟨ts, hlex, hscan⟩ := lex_scan defaultCfg defaultRulesOK s
   obtain ⟨before, rest, hts, hlen, hsc⟩ := scan_at_boundary _ _ ts hscan p hb
-  have hsz : (defaultCfg.env s).s.size = s.size := rfl
   cases hsc with
   | done _ hge =>
     have hp := boundary_le_size defaultCfg (defaultCfg.env s) defaultRulesOK p hb
     have := firstMatch_progress _ _ defaultRulesOK p hp _ _ hfm
     omega
   | err _ c ts' hc hfm' _ => rw [hfm] at hfm'; exact absurd hfm' (by simp)
-  | tok _ act e' ts' hpe hes hfm' hact _ =>
+  | tok _ act' e' ts' hpe hes hfm' hact _ =>
     rw [hfm] at hfm'
     simp only [Option.some.injEq, Prod.mk.injEq] at hfm'
     obtain ⟨rfl, rfl⟩ := hfm'
     refine ⟨ts, before, ts', hlex, hts, hlen, ?_⟩
     have := Boundary.next p hb (by omega)
     simpa [scanNext, hfm] using this
+
+theorem lex_emits (s : Array Cp) (p : Nat) (ty : TType) (e : Nat)
+    (hb : Boundary defaultCfg (defaultCfg.env s) p)
+    (hfm : firstMatch (defaultCfg.env s) defaultCfg.rules p = some (.tok ty, e)) :
+    ∃ ts before after, lex defaultCfg s = .ok ts ∧ ts = before ++ ⟨ty, (s.extract p e).toList⟩ :: after ∧
+      textLen before = p ∧ Boundary defaultCfg (defaultCfg.env s) e :=
+  lex_emits_act s p (.tok ty) e hb hfm
 
 theorem extract_region (s : Array Cp) (pre mid rest : List Cp) (p : Nat) (h : s.toList = pre ++ mid ++ rest)
     (hp : pre.length = p) : (s.extract p (p + mid.length)).toList = mid := by
